@@ -3,3 +3,5 @@ import Hifi.Props.C01
 import Hifi.Props.C02
 import Hifi.Props.C03
 import Hifi.Props.C14
+import Hifi.Props.C05
+import Hifi.Props.C06
